@@ -18,6 +18,9 @@ import (
 // ForceUnstakeMaxPaused return nil at every height that carries a marker (EndBlock aborts the block
 // on any error, so an error there means the chain cannot produce that block).
 
+// the net-address syntax check drags in regexp (sync.Pool): arbitrary verdict instead
+//zz:stub github.com/canopy-network/canopy/lib.ValidNetURLInput nondet
+
 var zzHeights = []uint64{10, 20}
 
 func zzValidator(i int) *Validator {
@@ -28,6 +31,12 @@ func zzValidator(i int) *Validator {
 		Committees:   []uint64{1},
 		Output:       zzAddr(i),
 		Delegate:     zzBool("delegate"),
+	}
+	switch zzConcrete(zzInt("committees"), 0, zzParam("committeeshapes", 0)) {
+	case 1:
+		v.Committees = []uint64{1, 2}
+	case 2:
+		v.Committees = []uint64{2, 1}
 	}
 	switch zzConcrete(zzInt("status"), 0, 3) {
 	case 1:
@@ -90,11 +99,41 @@ func zzInv12(sm *StateMachine, tag string, n int) {
 			zzAssert(tag+".paused-marker-iff-record", pm == (exists && v.MaxPausedHeight == h))
 		}
 		if exists {
-			zzAssert(tag+".status-heights-known", (v.UnstakingHeight == 0 || v.UnstakingHeight == 10 || v.UnstakingHeight == 20) && (v.MaxPausedHeight == 0 || v.MaxPausedHeight == 20))
+			uk, pk := v.UnstakingHeight == 0, v.MaxPausedHeight == 0
+			for _, h := range zzHeights {
+				uk, pk = zzOr(uk, v.UnstakingHeight == h), zzOr(pk, v.MaxPausedHeight == h)
+			}
+			zzAssert(tag+".status-heights-known", zzAnd(uk, pk))
 		}
 	}
 	zzAssert(tag+".staked-tally", sup.Staked == staked)
 	zzAssert(tag+".delegated-tally", sup.DelegatedOnly == delegated)
+	// per-committee tallies = sums over the records that list the committee
+	for _, c := range []uint64{1, 2} {
+		var cs, cd uint64
+		for i := 0; i < n; i++ {
+			addr := crypto.NewAddress(zzAddr(i))
+			if ok, _ := sm.GetValidatorExists(addr); !ok {
+				continue
+			}
+			v, _ := sm.GetValidator(addr)
+			for _, id := range v.Committees {
+				if id == c {
+					cs += v.StakedAmount
+					if v.Delegate {
+						cd += v.StakedAmount
+					}
+				}
+			}
+		}
+		ps, e1 := sm.GetCommitteeStakedSupplyForChain(c)
+		pd, e2 := sm.GetDelegateStakedSupplyForChain(c)
+		zzAssert(tag+".committee-tally-readable", e1 == nil && e2 == nil)
+		if e1 == nil && e2 == nil {
+			zzAssert(tag+".committee-staked-tally", ps.Amount == cs)
+			zzAssert(tag+".committee-delegated-tally", pd.Amount == cd)
+		}
+	}
 }
 
 // zzNoWedge: the deferred end-block actions succeed at every marker height.
@@ -144,6 +183,219 @@ func ZZ_C12_step_SlashValidator() {
 	zzInv12(sm, "C12.slash", 1)
 	zzNoWedge(sm, "C12.slash")
 	zzReach("C12.slash.done")
+}
+
+
+// ---- one step per staking operation -------------------------------------------------------------
+
+// zzStakingWorldAcc: the staking world plus a funded account 2 (signer / output of new stake).
+func zzStakingWorldAcc(sm *StateMachine, n int) ([]*Validator, uint64) {
+	vals := zzStakingWorld(sm, n)
+	bal := zzN64("acct")
+	sup, _ := sm.GetSupply()
+	zzAssume(sup.Total+bal >= sup.Total)
+	sup.Total += bal
+	if sm.SetAccount(&Account{Address: zzAddr(2), Amount: bal}) != nil || sm.SetSupply(sup) != nil {
+		panic("account")
+	}
+	sm.ResetCaches()
+	return vals, bal
+}
+
+//zz:harness mode=int unwind=60 maxpaths=40000 timebudget=1200 param.committeeshapes@thorough=2
+//zz:reach C12.unstake.ok C12.unstake.done
+func ZZ_C12_step_Unstake() {
+	sm, _ := zzFSM(5)
+	zzProtocol(sm, zzConcrete(zzInt("protocol"), 1, 2))
+	zzStakingWorld(sm, zzParam("vals", 1))
+	err := sm.HandleMessageUnstake(&MessageUnstake{Address: zzAddr(0)})
+	if err == nil {
+		zzReach("C12.unstake.ok")
+		v, e := sm.GetValidator(crypto.NewAddress(zzAddr(0)))
+		zzAssert("C12.unstake.marks-unstaking", e == nil && v.UnstakingHeight != 0 && v.MaxPausedHeight == 0)
+		if e == nil {
+			zzHeights = append([]uint64{v.UnstakingHeight}, 10, 20)
+		}
+	}
+	zzInv12(sm, "C12.unstake", zzParam("vals", 1))
+	zzNoWedge(sm, "C12.unstake")
+	zzReach("C12.unstake.done")
+}
+
+//zz:harness mode=int unwind=60 maxpaths=40000 timebudget=1200 param.committeeshapes@thorough=2
+//zz:reach C12.pause.ok C12.pause.done
+func ZZ_C12_step_Pause_Unpause() {
+	sm, _ := zzFSM(5)
+	zzProtocol(sm, zzConcrete(zzInt("protocol"), 1, 2))
+	zzStakingWorld(sm, zzParam("vals", 1))
+	var err lib.ErrorI
+	if zzBool("unpause") {
+		err = sm.HandleMessageUnpause(&MessageUnpause{Address: zzAddr(0)})
+	} else {
+		err = sm.HandleMessagePause(&MessagePause{Address: zzAddr(0)})
+		if err == nil {
+			v, e := sm.GetValidator(crypto.NewAddress(zzAddr(0)))
+			if e == nil {
+				zzHeights = append([]uint64{v.MaxPausedHeight}, 10, 20)
+			}
+		}
+	}
+	if err == nil {
+		zzReach("C12.pause.ok")
+	}
+	zzInv12(sm, "C12.pause", zzParam("vals", 1))
+	zzNoWedge(sm, "C12.pause")
+	zzReach("C12.pause.done")
+}
+
+//zz:harness mode=int unwind=60 maxpaths=60000 timebudget=1500 param.committeeshapes=2
+//zz:reach C12.edit.ok C12.edit.done
+func ZZ_C12_step_EditStake() {
+	sm, _ := zzFSM(5)
+	zzProtocol(sm, zzConcrete(zzInt("protocol"), 1, 2))
+	vals, bal := zzStakingWorldAcc(sm, 1)
+	sup0, _ := sm.GetSupply()
+	msg := &MessageEditStake{Address: zzAddr(0), Amount: zzN64("newAmount"), OutputAddress: vals[0].Output, Signer: zzAddr(2), Compound: zzBool("compound")}
+	switch zzConcrete(zzInt("newCommittees"), 0, 3) {
+	case 0:
+		msg.Committees = []uint64{1}
+	case 1:
+		msg.Committees = []uint64{2}
+	case 2:
+		msg.Committees = []uint64{1, 2}
+	case 3:
+		msg.Committees = []uint64{2, 1}
+	}
+	if !vals[0].Delegate {
+		msg.NetAddress = "tcp://x"
+	}
+	err := sm.HandleMessageEditStake(msg)
+	if err == nil {
+		zzReach("C12.edit.ok")
+		v, e := sm.GetValidator(crypto.NewAddress(zzAddr(0)))
+		zzAssert("C12.edit.record-readable", e == nil)
+		if e == nil {
+			zzAssert("C12.edit.stake-never-decreases", v.StakedAmount >= vals[0].StakedAmount)
+			a, _ := sm.GetAccountBalance(crypto.NewAddress(zzAddr(2)))
+			zzAssert("C12.edit.signer-pays-exactly-the-increase", bal-a == v.StakedAmount-vals[0].StakedAmount)
+			sup, _ := sm.GetSupply()
+			zzAssert("C12.edit.total-supply-unchanged", sup.Total == sup0.Total)
+		}
+		zzInv12(sm, "C12.edit", 1)
+		zzNoWedge(sm, "C12.edit")
+	}
+	zzReach("C12.edit.done")
+}
+
+//zz:harness mode=int unwind=60 maxpaths=60000 timebudget=1500 param.committeeshapes=2
+//zz:reach C12.finish.returned C12.finish.done
+func ZZ_C12_step_DeleteFinishedUnstaking() {
+	sm, _ := zzFSM(5)
+	zzProtocol(sm, zzConcrete(zzInt("protocol"), 1, 2))
+	n := zzParam("vals", 2)
+	vals := zzStakingWorld(sm, n)
+	sup0, _ := sm.GetSupply()
+	sm.height = 10
+	sm.ResetCaches()
+	err := sm.DeleteFinishedUnstaking()
+	zzAssert("C12.finish.returns-nil", err == nil)
+	var returned uint64
+	for i := 0; i < n; i++ {
+		ok, _ := sm.GetValidatorExists(crypto.NewAddress(zzAddr(i)))
+		if vals[i].UnstakingHeight == 10 {
+			zzAssert("C12.finish.finished-validator-removed", !ok)
+			returned += vals[i].StakedAmount
+			zzReach("C12.finish.returned")
+		} else {
+			zzAssert("C12.finish.other-validators-kept", ok)
+		}
+	}
+	var got uint64
+	for i := 0; i < n; i++ {
+		a, _ := sm.GetAccountBalance(crypto.NewAddress(zzAddr(i)))
+		got += a
+	}
+	zzAssert("C12.finish.stake-returned-to-output", got == returned)
+	sup, _ := sm.GetSupply()
+	zzAssert("C12.finish.total-supply-unchanged", sup.Total == sup0.Total)
+	zzInv12(sm, "C12.finish", n)
+	zzNoWedge(sm, "C12.finish")
+	zzReach("C12.finish.done")
+}
+
+//zz:harness mode=int unwind=60 maxpaths=60000 timebudget=1500 param.committeeshapes=2
+//zz:reach C12.maxpause.done C12.maxpause.forced
+func ZZ_C12_step_ForceUnstakeMaxPaused() {
+	sm, _ := zzFSM(5)
+	zzProtocol(sm, zzConcrete(zzInt("protocol"), 1, 2))
+	n := zzParam("vals", 2)
+	vals := zzStakingWorld(sm, n)
+	sm.height = 20
+	sm.ResetCaches()
+	err := sm.ForceUnstakeMaxPaused()
+	zzAssert("C12.maxpause.returns-nil", err == nil)
+	extra := []uint64{10, 20}
+	for i := 0; i < n; i++ {
+		v, e := sm.GetValidator(crypto.NewAddress(zzAddr(i)))
+		zzAssert("C12.maxpause.nobody-removed", e == nil)
+		if e != nil {
+			continue
+		}
+		if vals[i].MaxPausedHeight == 20 {
+			zzReach("C12.maxpause.forced")
+			zzAssert("C12.maxpause.paused-too-long-is-unstaking", v.UnstakingHeight != 0 && v.MaxPausedHeight == 0)
+			extra = append(extra, v.UnstakingHeight)
+		} else {
+			zzAssert("C12.maxpause.others-untouched", v.UnstakingHeight == vals[i].UnstakingHeight && v.MaxPausedHeight == vals[i].MaxPausedHeight)
+		}
+	}
+	zzHeights = extra
+	zzInv12(sm, "C12.maxpause", n)
+	zzNoWedge(sm, "C12.maxpause")
+	zzReach("C12.maxpause.done")
+}
+
+// SlashValidator under protocol v2 (committee-scoped slashing with the per-block cap and ejection)
+// with a governance minimum stake, so a slash may eject, force-unstake or delete the validator.
+//
+//zz:harness mode=int unwind=60 maxpaths=60000 timebudget=1500 param.committeeshapes=2
+//zz:reach C12.slash2.done C12.slash2.ejected
+func ZZ_C12_step_SlashValidator_v2() {
+	sm, _ := zzFSM(5)
+	zzProtocol(sm, 2)
+	vals := zzStakingWorld(sm, 1)
+	zzAssume(!vals[0].Delegate)
+	params, _ := sm.GetParamsVal()
+	params.MinimumStakeForValidators = zzN64("minStake")
+	if sm.SetParamsVal(params) != nil {
+		panic("params")
+	}
+	prior := zzN64("slashedEarlierInBlock")
+	zzAssume(prior <= params.MaxSlashPerCommittee)
+	if prior > 0 {
+		sm.slashTracker.AddSlash(zzAddr(0), 1, prior)
+	}
+	pct := zzN64("percent")
+	zzAssume(pct <= 100)
+	v, e := sm.GetValidator(crypto.NewAddress(zzAddr(0)))
+	if e != nil {
+		panic("get validator")
+	}
+	nc := len(v.Committees)
+	zzAssert("C12.slash2.returns-nil", sm.SlashValidator(v, 1, pct, params) == nil)
+	extra := []uint64{10, 20}
+	if w, e2 := sm.GetValidator(crypto.NewAddress(zzAddr(0))); e2 == nil {
+		if len(w.Committees) < nc {
+			zzReach("C12.slash2.ejected")
+		}
+		if w.UnstakingHeight != 0 {
+			extra = append(extra, w.UnstakingHeight)
+		}
+	}
+	zzHeights = extra
+	zzInv12(sm, "C12.slash2", 1)
+	zzNoWedge(sm, "C12.slash2")
+	zzReach("C12.slash2.done")
 }
 
 var _ = lib.JoinLenPrefix
